@@ -1,0 +1,6 @@
+//go:build !verif
+
+package cmd
+
+// verifDelayPoint is a no-op unless yardl is built with the `verif` tag.
+func verifDelayPoint() {}
